@@ -122,7 +122,19 @@ class BloomDriver:
             ea = o.elements_added
             ctx.check(self._o("counter"), ea == self.count,
                       lambda: f"{what}: {self.kind} elements_added {ea} != documented value {self.count}")
-        if self._o("stats") and self.kind != "expanding":
+        # the statistics are queried after every step, or (case["stat_mask"]) only at some steps of the history: a value the library
+        # remembered at the previous query must still be right when several updates happened in between
+        self.nverify = getattr(self, "nverify", -1) + 1
+        mask = self.case.get("stat_mask", 0)
+        force, self.force_stats = getattr(self, "force_stats", False), False
+        if mask and not force and not (mask >> (self.nverify % 8)) & 1:
+            self.events.add("stats_query_skipped_for_some_steps")
+        elif self._o("stats") and self.kind != "expanding":
+            if not hasattr(self, "qcounts"):
+                self.qcounts = []
+            if self.count in self.qcounts:
+                self.qcounts.remove(self.count)
+            self.qcounts.append(self.count)  # most recently queried last
             m, k = o.number_bits, o.number_hashes
             raw = self.bits()
             X = sum(bin(b).count("1") for b in raw)
@@ -176,12 +188,38 @@ class BloomDriver:
             if self.kind == "expanding":
                 return self.step(["add", op[1]])
             v = op[1] % 50
+            qc = [c for c in getattr(self, "qcounts", []) if c != self.count]
+            if op[1] % 2 and qc:
+                # rewind: the counter returns to a value it had at an EARLIER statistics query while the bits are those of now
+                # (mostly the most recent one: a single remembered value is keyed on it)
+                v = qc[-1] if (op[1] // 2) % 4 else qc[(op[1] // 8) % len(qc)]
+                self.events.add("setcount_rewind")
             def assign():
                 o.elements_added = v
             ctx.call(anyo, assign)
             self.count = v
             self.events.add("setcount")
             ctx.op("setcount", v)
+        elif kind == "rewind":
+            # statistics are queried, several keys are added with NO query in between, the (documented settable) element counter is
+            # assigned the value it had at the query, and the statistics are queried again: they must describe the bits of now
+            if self.kind == "expanding":
+                return self.step(["add", op[1]])
+            self.force_stats = True
+            self.verify(f"before {op}")
+            c = self.count
+            n = 3 + op[1] % 6
+            for i in range(n):
+                k = "rw-%d-%d" % (len(self.keys), i)
+                ctx.call(anyo, o.add, k)
+                self.keys.append(k)
+            def assign_c():
+                o.elements_added = c
+            ctx.call(anyo, assign_c)
+            self.count = c
+            self.force_stats = True
+            self.events.add("setcount_rewind_after_unqueried_adds")
+            ctx.op("rewind", n, c)
         elif kind == "bulk":
             n = 5 + op[1] % 40
             for i in range(n):
@@ -382,6 +420,7 @@ def case_strategy(tier, kinds=("bloom", "ondisk", "expanding"), hashes=None, max
         op = st.one_of(
             st.tuples(st.just("add"), idx), st.tuples(st.just("add"), idx), st.tuples(st.just("add"), idx),
             st.tuples(st.just("addf"), idx), st.tuples(st.just("bulk"), st.integers(0, 39)), st.tuples(st.just("setcount"), st.integers(0, 49)),
+            st.tuples(st.just("rewind"), st.integers(0, 49)),
             st.tuples(st.just("push"), idx),
             st.tuples(st.just("clear")),
             st.tuples(st.just("reload"), st.integers(0, 5)),
@@ -390,6 +429,7 @@ def case_strategy(tier, kinds=("bloom", "ondisk", "expanding"), hashes=None, max
         )
         ops = draw(st.lists(op, min_size=3, max_size=max_ops))
         return {"kind": kind, "est": est, "fpr": fpr, "hash": draw(gen.hash_name_st(hashes)),
-                "pool": draw(gen.pool_st(2, 10)), "ops": [list(o) for o in ops]}
+                "pool": draw(gen.pool_st(2, 10)), "ops": [list(o) for o in ops],
+                "stat_mask": draw(st.one_of(st.just(0), st.integers(1, 255)))}
 
     return case()
